@@ -61,7 +61,8 @@ Section FromLineReader.
   Definition header_from_line_reader (lr : linereader) (m : option mode) (lg : logger)
     : out header * linereader :=
     let '(lines, lr') := lr_take_pragmas (lr_line lr) (lr_rest lr) (lr_no lr) [] in
-    (header_from_lines registry lines m lg, lr').
+    (* first_line_number = line_reader.line_number() + 1, taken before the loop *)
+    (header_from_lines_at registry (lr_no lr + 1) lines m lg, lr').
 
   (* MafHeader.scheme_header_lines(scheme) *)
   Definition scheme_header_lines (s : scheme C) : list str :=
